@@ -7,6 +7,7 @@
 //     WaitGroup Add/Done/Wait, sync.Once Do, close(ch), channel send/receive,
 //     select), so that the seeded scheduler can interleave goroutines between any
 //     two such operations, not only at the hand-placed hook points;
+//
 //   - X.Lock() / X.RLock() statements become verifLock(X.TryLock, X.Lock, ...),
 //     cooperative acquisition that parks in the simulator instead of blocking in
 //     the Go runtime (a goroutine blocked on a sync.Mutex is not "durably
